@@ -35,7 +35,10 @@ INSTS = {"BrownianStock": "gbm", "HestonStock": "heston", "CIRRate": "cir", "Vas
          "KouJumpStock": "kou", "RoughBergomiStock": "rough_bergomi", "LocalVolatilityStock": "local_vol"}
 EXP_TYPE = {"gbm", "heston", "merton", "kou", "rough_bergomi"}  # exponential-type price processes of the statement
 N_STATE = {"brownian": 1, "gbm": 1, "cir": 1, "heston": 2, "vasicek": 1, "merton": 1, "kou": 1, "rough_bergomi": 2, "local_vol": 1}
-SCALAR_OK = {"brownian", "gbm", "merton", "kou", "local_vol"}  # init_state documented as tuple or scalar
+# init_state as a bare scalar / bare tensor instead of a tuple: documented for some generators, accepted by all one-state
+# generators (they all go through cast_state, whose documentation lists the bare forms)
+SCALAR_OK = {"brownian", "gbm", "merton", "kou", "local_vol", "cir", "vasicek"}
+COLUMN_STATE = {"brownian", "gbm", "merton", "rough_bergomi"}  # a per-path initial state has shape (n_paths, 1); the others (n_paths,)
 
 
 def sigma_flat(time, spot):
@@ -50,7 +53,23 @@ def sigma_term(time, spot):
     return torch.zeros_like(spot) + 0.1 + 0.3 * time / (1.0 + time)
 
 
-SIGMA_FNS = {"flat": sigma_flat, "smile": sigma_smile, "term": sigma_term}
+def sigma_const0d(time, spot):
+    return torch.zeros_like(time) + 0.25  # a term structure / constant that ignores the spot: one value for all paths
+
+
+def sigma_term0d(time, spot):
+    return 0.1 + 0.3 * time / (1.0 + time)
+
+
+SIGMA_FNS = {"flat": sigma_flat, "smile": sigma_smile, "term": sigma_term, "const0d": sigma_const0d, "term0d": sigma_term0d}
+ENGINE_GENS = {"brownian", "gbm", "merton", "kou"}  # generators with the documented ``engine`` argument
+ENGINE_INSTS = {"MertonJumpStock", "KouJumpStock"}
+
+
+def _engine(name):
+    from pfhedge.stochastic import randn_antithetic, randn_sobol_boxmuller
+
+    return {"antithetic": randn_antithetic, "sobol": randn_sobol_boxmuller}[name]
 
 
 # ------------------------------------------------------------------------------ strategies
@@ -106,7 +125,7 @@ def model_params(draw, model: str, mild: bool):
 @st.composite
 def init_spec(draw, model: str, allow_scalar: bool):
     """Default / Python scalars / 0-dim tensors. values are drawn per state component."""
-    kind = draw(st.sampled_from(["default", "float", "float", "tensor32", "tensor64", "int"]))
+    kind = draw(st.sampled_from(["default", "float", "float", "tensor32", "tensor64", "int", "per_path"]))
     if kind == "default":
         return {"kind": "default"}
     vals = []
@@ -121,6 +140,12 @@ def init_spec(draw, model: str, allow_scalar: bool):
         else:  # variance-type state
             vals.append(draw(st.one_of(st.sampled_from([0.04, 0.0, 1e-6, 0.3, 0.01]), _logu(1e-5, 0.5), fl(0.001, 0.2))))
     out = {"kind": kind, "values": vals}
+    if kind == "per_path":
+        # one start value per path for the first state component (a pool cycled over the paths)
+        price_like = model in EXP_TYPE | {"local_vol"}
+        el = st.sampled_from([1.0, 100.0, 0.5, 2.0, 1.3]) if price_like else \
+            (st.sampled_from([0.0, 0.04, -0.02, 1.7, 0.5]) if model in ("brownian", "vasicek") else st.sampled_from([0.04, 0.0, 0.3, 0.01, 1e-6]))
+        out["pool"] = draw(st.lists(el, min_size=2, max_size=4))
     if allow_scalar and N_STATE[model] == 1 and kind != "default":
         out["scalar"] = draw(st.booleans())
     return out
@@ -149,6 +174,8 @@ def generator_case(draw):
     _cap_jumps(case["params"], case["dt"])
     if gen == "local_vol":
         case["sigma_fn"] = draw(st.sampled_from(sorted(SIGMA_FNS)))
+    if gen in ENGINE_GENS:
+        case["engine"] = draw(st.sampled_from([None, None, "antithetic", "sobol"]))
     return case
 
 
@@ -164,6 +191,8 @@ def instrument_case(draw):
     _cap_jumps(case["params"], case["dt"])
     if model == "local_vol":
         case["sigma_fn"] = draw(st.sampled_from(sorted(SIGMA_FNS)))
+    if inst in ENGINE_INSTS:
+        case["engine"] = draw(st.sampled_from([None, None, "antithetic", "sobol"]))
     hist = []
     for _ in range(draw(st.integers(1, 4))):
         hist.append({"n_paths": draw(st.one_of(st.integers(1, 40), st.integers(1, 3))),
@@ -184,12 +213,17 @@ def _unsupported(dtype):
     return classify
 
 
-def _build_init(spec, scalar_ok):
+def _build_init(spec, scalar_ok, model=None, n_paths=None, want_dtype=None):
     """-> (argument for init_state or None, list of per-component expected-value builders)."""
     if spec["kind"] == "default":
         return None
     vals = spec["values"]
-    if spec["kind"] in ("float", "int"):
+    if spec["kind"] == "per_path":
+        pool = spec["pool"]
+        dt = want_dtype if want_dtype in (torch.float32, torch.float64) else torch.float32
+        first = torch.tensor([pool[i % len(pool)] for i in range(n_paths)], dtype=dt)
+        comps = [first.reshape(-1, 1) if model in COLUMN_STATE else first] + [float(v) for v in vals[1:]]
+    elif spec["kind"] in ("float", "int"):
         comps = list(vals)
     elif spec["kind"] == "tensor32":
         comps = [torch.tensor(float(v), dtype=torch.float32) for v in vals]
@@ -200,9 +234,11 @@ def _build_init(spec, scalar_ok):
     return tuple(comps)
 
 
-def _expected_state(comp, dt: torch.dtype) -> float:
-    """The requested component at the resolution of the buffer dtype, as a Python float."""
+def _expected_state(comp, dt: torch.dtype):
+    """The requested component at the resolution of the buffer dtype: a Python float, or one value per path."""
     if isinstance(comp, torch.Tensor):
+        if comp.numel() > 1:
+            return comp.to(dt).double().reshape(-1)
         return comp.to(dt).double().item()
     return torch.tensor(comp, dtype=dt).double().item()
 
@@ -309,18 +345,19 @@ def validate(ctx, lab, model, params, dt, series, want_shape, want_dtype, init_c
     state_names = {"heston": ["spot", "variance"], "rough_bergomi": ["spot", "variance"]}.get(model, ["spot"])
     for i, name in enumerate(state_names):
         comp = init_comps[i] if init_comps is not None else defaults[i]
-        want = _expected_state(comp, want_dtype)
+        want = torch.as_tensor(_expected_state(comp, want_dtype), dtype=torch.float64)
         col = series[name][:, 0].double()
-        tol = 2 * eps * abs(want)
-        if model == "heston" and name == "spot" and want > 0:
+        tol = 2 * eps * want.abs()
+        if model == "heston" and name == "spot" and bool((want > 0).all()):
             # exp(log(x)); with dtype=None a tensor state is not cast, so the logarithm is taken in the state's own dtype
             e_state = EPS[{v: k for k, v in DTYPES.items()}[comp.dtype]] if (isinstance(comp, torch.Tensor) and not dtype_given) else 0.0
-            tol = 4 * max(eps, e_state) * abs(want) * (1 + abs(math.log(want)))
+            tol = 4 * max(eps, e_state) * want.abs() * (1 + want.log().abs())
         bad = ~((col - want).abs() <= tol)
         if bad.any():
             j = int(bad.nonzero()[0])
-            ctx.fail(lab + "/initial-state", f"{name}[{j},0] = {col[j].item()!r}, requested initial state {want!r} ({dname}; tol {tol:.2e})",
-                     series=name, got=col[j].item(), want=want)
+            wj = float(want.reshape(-1)[j] if want.numel() > 1 else want)
+            ctx.fail(lab + "/initial-state", f"{name}[{j},0] = {col[j].item()!r}, requested initial state {wj!r} ({dname})",
+                     series=name, got=col[j].item(), want=wj)
             ok = False
     # finiteness / sign
     region = _qe_region(model, params, dt, series, dname)
@@ -341,7 +378,10 @@ def validate(ctx, lab, model, params, dt, series, want_shape, want_dtype, init_c
                 ok = False
             edge = (xd == 0) | torch.isinf(xd)
             if edge.any():
-                s0 = abs(_expected_state(init_comps[0] if init_comps is not None else defaults[0], want_dtype))
+                s0 = _expected_state(init_comps[0] if init_comps is not None else defaults[0], want_dtype)
+                if isinstance(s0, torch.Tensor):  # one start value per path: the one of the first offending path
+                    s0 = float(s0[int(edge.nonzero()[0][0])])
+                s0 = abs(s0)
                 B = _log_range_bound(model, params, dt, n, series.get("variance"))
                 fi = FINFO[dname]
                 lo_ok = s0 > 0 and math.log(s0) - B < math.log(fi.smallest_normal) - 1.0  # below the normal range: may round to 0
@@ -420,10 +460,13 @@ def _check_generator(case, ctx):
     kw["dt"] = case["dt"]
     if dtype:
         kw["dtype"] = DTYPES[dtype]
-    init = _build_init(case["init"], gen in SCALAR_OK)
+    init = _build_init(case["init"], gen in SCALAR_OK, gen, n_paths, want_dtype)
     if init is not None:
         kw["init_state"] = init
     args = (n_paths, n_steps) + ((SIGMA_FNS[case["sigma_fn"]],) if gen == "local_vol" else ())
+    if case.get("engine"):
+        kw["engine"] = _engine(case["engine"])
+        ctx.cls("engine:" + case["engine"])
     torch.manual_seed(case["seed"])
     with ctx.sut("C11/gen", expected=_unsupported(dtype)):
         out = fn(*args, **kw)
@@ -488,6 +531,9 @@ def _check_instrument(case, ctx):
     if dtype:
         kw["dtype"] = DTYPES[dtype]
     cls = getattr(I, inst)
+    if case.get("engine"):
+        kw["engine"] = _engine(case["engine"])
+        ctx.cls("engine:" + case["engine"])
     with ctx.sut("C11/inst/construct"):
         obj = cls(SIGMA_FNS[case["sigma_fn"]], **kw) if model == "local_vol" else cls(**kw)
     expected_names = {"heston": ["spot", "variance"], "rough_bergomi": ["spot", "variance"], "local_vol": ["spot", "volatility"]}.get(model, ["spot"])
@@ -508,7 +554,7 @@ def _check_instrument(case, ctx):
         else:
             horizon = half * case["dt"] / 2
             skw["time_horizon"] = horizon
-        init = _build_init(h["init"], False)
+        init = _build_init(h["init"], False, model, h["n_paths"], want_dtype)
         if init is not None:
             skw["init_state"] = init
         with ctx.sut("C11/inst", expected=_unsupported(dtype)):
